@@ -236,6 +236,17 @@ def Cmp.eval (lt : V → V → Bool) (a b : Rec V) : Cmp → Bool
   | .ret e => e.eval lt a b
   | .ifEq acc body e => if Val.eq (a acc) (b acc) then body.eval lt a b else e.eval lt a b
 
+/-- Normal form used when the generated program text is compared with the model's: inside
+`if s[i].a == s[j].a {…}; return e` the fall-through `return s[j].a` (pinned commit) and
+`return !s[i].a && s[j].a` (current tree) mean the same (`Properties/C08.normalize_eval`), so
+both are written the second way.  A trailing `return s[j].a` is NOT normalised. -/
+def Cmp.normalize : Cmp → Cmp
+  | .ret e => .ret e
+  | .ifEq acc body e =>
+    .ifEq acc body.normalize (match e with
+      | .selJ a => if a = acc then .notIAndJ a else .selJ a
+      | e => e)
+
 /-! ## Specification (mirrors the property text)
 
 "lexicographic comparison of the tagged fields, or of their accessor results, in ascending
